@@ -95,3 +95,19 @@ Theorem C09_param_type_offset : forall base n : Z,
   snd ArrayTypeBlob__type_at = snd ParamTypeBlob__type_at.
 Proof. exact param_type_offset. Qed.
 Print Assumptions C09_param_type_offset.
+
+(* the dimensions of a C array: through the blob the compiler writes (Model/C06K.blob_carray, tied to the API's reports in C06)
+   and the two accessors recognised in gitypeinfo.c, the API reports the length index the GIR gives, and the fixed size the GIR
+   gives EXCEPT for an array that also has a length (known finding C09-K1: the blob has one dimension) - never anything else;
+   before fix b101e79 it reported the length index as the fixed size of such an array *)
+From GIV.Model Require Import C06K.
+Theorem C09_array_dimensions : forall a,
+  api_dims true a = ((if ka_has_len a then Z.of_N (ka_len a) else -1)%Z,
+                     (if ka_has_size a && negb (ka_has_len a) then Z.of_N (ka_size a) else -1)%Z).
+Proof. exact array_dimensions. Qed.
+Print Assumptions C09_array_dimensions.
+
+Theorem C09_array_dimensions_refuted_before_fix : exists a,
+  ka_has_len a = true /\ ka_has_size a = true /\ snd (api_dims false a) = Z.of_N (ka_len a) /\ ka_len a <> ka_size a.
+Proof. exact array_dimensions_refuted_before_fix. Qed.
+Print Assumptions C09_array_dimensions_refuted_before_fix.
